@@ -68,7 +68,9 @@ pub fn generate(seed: u64, tier: &str, sink: &mut Sink) {
         let nf = if i == 0 { 0 } else if i == 1 { 1 } else { rng.below(4) as usize };
         let texts: Vec<(String, String)> = (0..nt)
             .map(|_| {
-                let len = rng.below(60) as usize;
+                // text values as long as files: around the 8 KiB copy buffer, two buffers, beyond 64 KiB — a text
+                // field stays a text field (no file name, no content type) however long it is (seed C15-seed8)
+                let len = if rng.chance(1, 8) { *rng.pick(&[8190usize, 8191, 8192, 8193, 16385, 70000]) } else { rng.below(60) as usize };
                 let t: String = (0..len).map(|_| *rng.pick(&['a', 'é', '\r', '\n', '-', ' ', 'Z', '日'])).collect();
                 (gen_name(&mut rng), t)
             })
